@@ -81,20 +81,28 @@ class World(SessionWorld):
         if not self.t.sent or not isinstance(self.t.sent[0], message.Hello):
             raise SetupViolation("no-HELLO-sent-on-open", repr(self.t.sent)[:200])
         roles = {"broker": role.RoleBrokerFeatures(), "dealer": role.RoleDealerFeatures(progressive_call_results=True, call_canceling=True)}
-        err = self.deliver(message.Welcome(77001, roles, realm="realm1", authid="anon", authrole="user", authmethod="anonymous"))
-        self.settle()
-        if err is not None or self.session._session_id != 77001:
-            raise SetupViolation("session-did-not-join-on-WELCOME", repr(err)[:200])
         self.sent_base = len(self.t.sent)
         self.prev_id = 0
+        self.tok = 0
         if self.cfg["near_wrap"]:
             # labelled white-box knob: start the id generator just below 2**53 to cross the wrap
             k = ch.choose(4, "wrap-distance")
             self.session._request_id_gen._next = MAXID - k
             self.prev_id = MAXID - k
             self.run.probe("id-near-wrap")
+        # a 'join' listener (session.on('join', ...), what Component's decorators use) may issue the session's first
+        # request while the join is still being processed: ids go on from there
+        self.cfg["join_listener"] = ch.flag("join-listener-issues-a-request", 0.25)
+        if self.cfg["join_listener"]:
+            def on_join_listener(*a, **k):
+                self.run.probe("request-issued-by-a-join-listener")
+                self.nested_call(None, sync_progress=False)
+            self.session.on("join", on_join_listener)
+        err = self.deliver(message.Welcome(77001, roles, realm="realm1", authid="anon", authrole="user", authmethod="anonymous"))
+        self.settle()
+        if err is not None or self.session._session_id != 77001:
+            raise SetupViolation("session-did-not-join-on-WELCOME", repr(err)[:200])
         self.ops_left = 3 + ch.choose(12, "nops")
-        self.tok = 0
         # the application maps an error URI to an exception class of its own; whether a given ERROR fits its constructor
         # is not in the application's hands - the request completes with the error either way
         self.cfg["defines"] = ch.flag("session-defines-an-exception-class", 0.35)
@@ -176,7 +184,7 @@ class World(SessionWorld):
         r2.opts = {"opt": "progress"}
         expect_id = self.next_id()
         n0 = len(self.t.sent)
-        self.run.log("app", "nested-call", r2.token, "inside a handler of", parent.token if parent is not None else "a failing send()")
+        self.run.log("app", "nested-call", r2.token, "inside a handler of", parent.token if parent is not None else "a failing send() / a listener")
         if sync_progress:
             self.run.probe("call-issued-inside-progress-handler")
             self.sync_reply_for = r2
